@@ -1148,7 +1148,9 @@ class WorkflowConductor(object):
         ctx = {}
 
         for ctx_idx in ctx_idxs:
-            ctx = dict_util.merge_dicts(ctx, self.workflow_state.contexts[ctx_idx], overwrite=True)
+            # Merge a copy so that the stored context is never modified via the merged result.
+            ctx_delta = json_util.deepcopy(self.workflow_state.contexts[ctx_idx])
+            ctx = dict_util.merge_dicts(ctx, ctx_delta, overwrite=True)
 
         return ctx
 
